@@ -37,6 +37,8 @@ noncomputable instance instNumReal : Num ℝ where
   nextUp x := x
   nextDown x := x
   ofUsize n := (n : ℝ)
+  -- ℝ has no infinity; `inf` is only ever used on branches guarded by `isNaN`, which are dead at this instance
+  inf := 0
 
 section simp_lemmas
 @[simp] theorem real_add (a b : ℝ) : @HAdd.hAdd ℝ ℝ ℝ (@instHAdd ℝ Num.toAdd) a b = a + b := rfl
@@ -61,6 +63,7 @@ section simp_lemmas
 @[simp] theorem real_ofSci (m : Nat) (s : Bool) (e : Nat) :
     (@OfScientific.ofScientific ℝ Num.instOfScientific m s e) = (OfScientific.ofScientific m s e : ℝ) := rfl
 @[simp] theorem real_eps : (Num.eps : ℝ) = (2 : ℝ)⁻¹ ^ 52 := rfl
+@[simp] theorem real_isNaN (a : ℝ) : Num.isNaN a = false := by simp [Num.isNaN, Num.beq]
 @[simp] theorem real_sin (a : ℝ) : Num.sin a = Real.sin a := rfl
 @[simp] theorem real_cos (a : ℝ) : Num.cos a = Real.cos a := rfl
 end simp_lemmas
